@@ -220,7 +220,10 @@ def run_case(case):
         for i, it in enumerate(items):
             if id(it) not in r.t_offer:
                 if all(id(x) in taken for x in items[:i]) and len(case["consumer"]) > len(got):
-                    res.violate((kind, acc, "never_offered", fl),
+                    fl_no = fl
+                    if kind == "continuous" and acc and abs((c["il"] / c["v"]) * 48 - round((c["il"] / c["v"]) * 48)) > 1e-9:
+                        fl_no = "offgrid"       # K3 in its extreme form (see C13): slot time off every time grid
+                    res.violate((kind, acc, "never_offered", fl_no),
                                 "item #%d entered at %s and is still not offered at the end of the run (t=%s) although every item before it "
                                 "was taken and the destination is waiting" % (i, p[i] if i < len(p) else None, r.env.now))
                 break
